@@ -1,4 +1,4 @@
-\* exhaustive plan enumeration: every catalog of the MCq configuration
+\* exhaustive plan enumeration: every catalog of the MCq configuration; source time 10 min behind / 10 min ahead of the local clock
 SPECIFICATION Spec
 CHECK_DEADLOCK FALSE
 INVARIANTS PlanOut
@@ -13,6 +13,8 @@ CONSTANTS
   PStates = {"created", "dropped"}
   Concrete <- NamesPlain
   Now = 100
+  Skews = {"behind", "ahead"}
+  ClampLocal = FALSE
   FixStaleDb = TRUE
   LiveDbGuard = TRUE
   SafeKeys = TRUE
